@@ -90,6 +90,8 @@ NOT_APPLICABLE = {p: 'check under construction in this round (specification plan
 EXTRA_ENGINES = [
  {"name": "EngineLifecycle", "path": "/verif/spec/EngineLifecycle.tla", "serves_properties": ["C01", "C02", "C12"],
   "kind_free_text": "growth beyond the listed properties: TLA+ specification of the real Engine launch/termination/emission pipeline (run, kill at every point, launch failure, task exit, restart, shutdown, snapshot overtaking), checked with TLC and bound both ways to the real experiment.runtime.engine.Engine on a deterministic rx world; also contract-tests harness/ctl.py's FakeEngine (the trust base of C01/C02) against the real Engine. Run with ./check G01 --tier quick|thorough (evidence/G01.json); not a property check."},
+ {"name": "SchedulerGrowth", "path": "/verif/spec/Scheduler.tla", "serves_properties": ["C01", "C02", "C05", "C12", "C16"],
+  "kind_free_text": "growth of Scheduler.tla beyond the listed properties: ExternalKill (killController/cleanUp at any time), restart from a later stage, sleep/wake-up (postponed finishedChecks replayed in order), memoization answers, DoWhile at run time (iteration slots, placeholders, condition true/false/garbage); 16 further invariants / action properties model-checked by TLC; real Controller runs in which the environment kills, sleeps and wakes at random turns (also inside postMortemCheck / Engine.restart) are trace-validated. Run with ./check G02 --tier quick|thorough (evidence/G02.json); C01/C02 run a second model with ExternalKill and kill one real schedule in five."},
 ]
 
 
